@@ -39,7 +39,7 @@ def read (s : St) : Res (List UInt8 × St) :=
         .ok (r.2.2.reverse, { bits := q2.2, ring := r.1, pos := r.2.1 })
       | _, _ => .ok ([], { s with bits := q2.2 })
 
-def dec : Dec := { σ := St, init := init, read := read }
+def dec : Dec := { σ := St, init := init, read := read, src := fun s => s.bits.src }
 
 end Lzs
 
@@ -95,7 +95,7 @@ def read (s : St) : Res (List UInt8 × St) :=
     (cmdLoop 8 0 bitmap.toNat { s with src := g.2 } []) >>= fun r => .ok (r.1.reverse, r.2)
   | _ => .ok ([], { s with src := g.2 })
 
-def dec : Dec := { σ := St, init := init, read := read }
+def dec : Dec := { σ := St, init := init, read := read, src := fun s => s.src }
 
 end Lz5
 
@@ -106,7 +106,7 @@ def read (s : Src) : Res (List UInt8 × Src) :=
   let g := s.read Gen.nullBlockReadSize
   .ok g
 
-def dec : Dec := { σ := Src, init := id, read := read }
+def dec : Dec := { σ := Src, init := id, read := read, src := id }
 
 end Null
 end LhasaV
